@@ -79,11 +79,13 @@ package keeper
 //@   invariant true
 
 //@ func (Keeper).GetAllConsAddrsToPrune
+//@   flag pure=SafeUint64ToInt64
 //@   before[C18.gacatp.prefix] KVStorePrefixIterator requires arg_prefix == bytelit(g("x/dogfood/types.ConsensusAddrsToPruneBytePrefix"))
 //@ loop #1
 //@   invariant true
+//@   step[C18.gacatp.own] len(res) == len(prev_res) + 1 && len(res[len(prev_res)].ConsAddrs) == len(res_GetList_0)
 //@ loop #2
-//@   invariant true
+//@   invariant[C18.gacatp.own] -1 <= rangeindex && rangeindex < len(res_GetList_0) && len(subRes) == rangeindex + 1
 
 // ... and the entry exported for an epoch holds as many record keys as are stored for THAT epoch (nothing carried over
 // from the epochs exported before it).
@@ -275,3 +277,25 @@ package keeper
 //@   flag pure=LastTotalPowerKey
 //@   modifies store(ctx, "dogfood")
 //@   ensures[C06.sltp.always] defined(res_MustMarshal_0) && defined(res_LastTotalPowerKey_0) && get(ctx, "dogfood", res_LastTotalPowerKey_0) == res_MustMarshal_0
+
+// C16 / C07 (a replaced key is queued for pruning exactly when it was validating ON THIS CHAIN): the replacement hook acts
+// only for the chain's own id (without revision) - a key replaced for another chain-type AVS touches neither the prune
+// queue nor the reverse lookup of this chain - queues the old key's consensus address when it is in the validator set
+// and releases its reverse lookup at once when it is not.
+//@ func (OperatorHooksWrapper).AfterOperatorKeyReplaced
+//@   names ctx, operator, oldKey, newKey, chainID
+//@   requires h.keeper != nil
+//@   flag noframe
+//@   flag pure=ToConsAddr,ChainIDWithoutRevision,GetExocoreValidator,GetUnbondingCompletionEpoch
+//@   flag havoc=AppendConsensusAddrToPrune,DeleteOperatorAddressForChainIDAndConsAddr
+//@   before[C16.aokr.queue,C07.aokr.queue] AppendConsensusAddrToPrune requires defined(res_ChainIDWithoutRevision_0) && chainID == res_ChainIDWithoutRevision_0 &&
+//@        res_GetExocoreValidator_1 && arg_operatorAddr == res_ToConsAddr_0 && arg_epoch == res_GetUnbondingCompletionEpoch_0
+//@   before[C16.aokr.release,C07.aokr.release] DeleteOperatorAddressForChainIDAndConsAddr requires defined(res_ChainIDWithoutRevision_0) && chainID == res_ChainIDWithoutRevision_0 &&
+//@        !res_GetExocoreValidator_1 && arg2 == chainID && arg3 == res_ToConsAddr_0
+
+// C04 (the slash reported through the staking interface is the one executed): the plain Slash entry point hands the
+// consensus address, the infraction height, the power and the factor on unchanged, each in its own position.
+//@ func (Keeper).Slash
+//@   flag noframe
+//@   flag havoc=SlashWithInfractionReason
+//@   before[C04.dslash.through] SlashWithInfractionReason requires arg_addr == addr && arg_infractionHeight == infractionHeight && arg_power == power && arg_slashFactor == slashFactor
